@@ -72,9 +72,18 @@ def handle (op : String) (args : List String) : Option String :=
               | none => " none" | some ps => " " ++ showCsvBytes ps))
           | .error e => s!"err {e}")
       | _, _ => "bad-arg"
-  | "c14.cg.encpar", [oids, ps] => some <| match csvBytes? oids, csvBytes? ps with
-      | some oids, some ps => let p := CommitGraphFmt.encodeParents oids ps; s!"{p.1} {p.2}"
+  | "c14.cg.encall", oids :: pss => some <| match csvBytes? oids, pss.mapM csvBytes? with
+      | some oids, some pss => (match CommitGraphFmt.encodeAll oids pss 0 with
+          | .ok (slots, edges) =>
+            "ok " ++ showCsvNat (slots.flatMap (fun s => [s.1, s.2])) ++ " " ++ showCsvNat edges
+          | .error e => s!"err {e}")
       | _, _ => "bad-arg"
+  | "c14.cg.close", es => some <|
+      match es.mapM (fun e => match e.splitOn ":" with
+        | [c, ps] => do some ((← bytes? c), (← csvBytes? ps))
+        | _ => none) with
+      | some es => showCsvBytes ((CommitGraphFmt.closeEntries es.length es).map (·.1))
+      | none => "bad-arg"
   | "c14.cg.decpar", [oids, edges, p1, p2] => some <|
       match csvBytes? oids, (if edges = "none" then some none else (csvNat? edges).map some), nat? p1, nat? p2 with
       | some oids, some edges, some p1, some p2 =>
